@@ -68,6 +68,14 @@ func keyPool(t *schema.Type, thorough bool) []poolKey {
 		add("a/0", mk("a", 0, false))
 		add("a/0+params", mk("a", 0, true)) // equal to a/0 as a key
 		add("a/1", mk("a", 1, false))
+		// keys that differ only in a field inherited through an include of the key record (when it has one)
+		if f := ck.Key.Field("kb"); f != nil {
+			for _, kb := range []string{"x", "y"} {
+				v := mk("a", 0, false)
+				v.Fields["kb"] = schema.VS(f.Type, kb)
+				add("a/0/kb="+kb, v)
+			}
+		}
 		add("a:b/0", mk("a:b", 0, false))
 		add("a%3Ab/0", mk("a%3Ab", 0, false))
 		add("empty/0", mk("", 0, false))
